@@ -7,29 +7,30 @@ id="$1"; dir="${2:-/verif/seeded/$id}"
 export GOFLAGS=-mod=mod GOPROXY=off GOSUMDB=off GOTOOLCHAIN=local GOWORK=off
 d=$(mktemp -d /tmp/csseed.XXXXXX)
 trap 'cd /verif; rm -rf "$d"' EXIT
-rsync -a --exclude .git --exclude SEED /repo/ "$d/repo/"
+rsync -a --exclude .git --exclude "SEED*" /repo/ "$d/repo/"
 cd "$d/repo" || exit 2
 if ! patch -p1 -s < "$dir/patch.diff"; then echo "PATCH DOES NOT APPLY"; exit 3; fi
 echo "== build/vet/test with the change"
 go build ./... 2>&1 | tail -3; go vet ./... 2>&1 | tail -3
 go test -vet=off -count=1 ./... 2>&1 | grep -v "^ok\|no test files" | head -5; echo "tests: $(go test -vet=off -count=1 ./... 2>&1 | grep -c '^ok') packages ok"
+sd=$(cat "$dir/seeddir" 2>/dev/null || echo SEED)   # directory name the demo expects to live in
 if [ -d "$dir/demo" ]; then
-  mkdir -p SEED && cp -r "$dir/demo" SEED/demo
+  mkdir -p $sd && cp -r "$dir/demo" $sd/demo
   echo "== demo WITH the change (expected to fail)"
   tags="seeddemo $(echo $id | tr A-Z a-z)demo"
   rundemo() {
-    if [ -f SEED/demo/run.sh ]; then (sed "s#/tmp/wt-$id#$d/repo#g" SEED/demo/run.sh > SEED/demo/run_local.sh; sh SEED/demo/run_local.sh 2>&1 || true) | tail -4
-    elif [ -f SEED/demo/go.mod ]; then (cd SEED/demo && go test -vet=off -count=1 ./... 2>&1 || true) | tail -4
-    elif ls SEED/demo/*_test.go >/dev/null 2>&1 && grep -q "^package main" SEED/demo/*_test.go; then
-      cp SEED/demo/*_test.go cmd/protoc-gen-fastmarshal/ && (go test -tags "$tags" -vet=off -count=1 -run 'TestC|TestSeed' ./cmd/protoc-gen-fastmarshal/ 2>&1 || true) | tail -4; for f in SEED/demo/*_test.go; do rm -f cmd/protoc-gen-fastmarshal/$(basename $f); done
-    else (go test -tags "$tags" -vet=off -count=1 ./SEED/demo/... 2>&1 || true) | tail -4; fi
+    if [ -f $sd/demo/run.sh ]; then (sed "s#/tmp/wt-$id#$d/repo#g" $sd/demo/run.sh > $sd/demo/run_local.sh; sh $sd/demo/run_local.sh 2>&1; echo "demo exit=$?") | tail -5
+    elif [ -f $sd/demo/go.mod ]; then (cd $sd/demo && go test -vet=off -count=1 ./... 2>&1 || true) | tail -4
+    elif ls $sd/demo/*_test.go >/dev/null 2>&1 && grep -q "^package main" $sd/demo/*_test.go; then
+      cp $sd/demo/*_test.go cmd/protoc-gen-fastmarshal/ && (go test -tags "$tags" -vet=off -count=1 -run 'TestC|TestSeed' ./cmd/protoc-gen-fastmarshal/ 2>&1 || true) | tail -4; for f in $sd/demo/*_test.go; do rm -f cmd/protoc-gen-fastmarshal/$(basename $f); done
+    else (go test -tags "$tags" -vet=off -count=1 ./$sd/demo/... 2>&1 || true) | tail -4; fi
   }
   rundemo
   patch -R -p1 -s < "$dir/patch.diff"
   echo "== demo WITHOUT the change (expected to pass)"
   rundemo
   patch -p1 -s < "$dir/patch.diff"
-  rm -rf SEED
+  rm -rf "$sd"
 fi
 echo "== checks on the changed tree"
 for c in C01 C02 C03 C04 C05 C06 C07 C08 C09 C10 C11 C12 C13 C14 C15 C16 C17 C18 C19 C20; do
